@@ -390,6 +390,9 @@ func (c *HostClient) Do(ctx context.Context, req *protocol.Request, resp *protoc
 
 	atomic.AddInt32(&c.pendingRequests, 1)
 	req.Options().StartRequest()
+	// A body stream is consumed (and dropped from the request) by the first attempt that writes it, so
+	// DefaultRetryIf can no longer see afterwards that the body cannot be sent a second time.
+	bodyIsStream := req.IsBodyStream()
 	for {
 		select {
 		case <-ctx.Done():
@@ -417,7 +420,7 @@ func (c *HostClient) Do(ctx context.Context, req *protocol.Request, resp *protoc
 		// keep-alive connection on timeout.
 		//
 		// Apache and nginx usually do this.
-		if canIdempotentRetry && client.DefaultRetryIf(req, resp, err) && errors.Is(err, errs.ErrBadPoolConn) {
+		if canIdempotentRetry && !bodyIsStream && client.DefaultRetryIf(req, resp, err) && errors.Is(err, errs.ErrBadPoolConn) {
 			connAttempts++
 			continue
 		}
@@ -432,7 +435,7 @@ func (c *HostClient) Do(ctx context.Context, req *protocol.Request, resp *protoc
 		}
 
 		// Check whether this request should be retried
-		if !isRequestRetryable(req, resp, err) {
+		if bodyIsStream || !isRequestRetryable(req, resp, err) {
 			break
 		}
 
